@@ -17,6 +17,7 @@ func init() {
 		Run: func(m *Model, s *Sink) {
 			m.RunBuiltinPurity(s, "R-PURE")
 			m.RunBuiltinRules(s, "R-ARGS", "R-UTF8", "R-SIBLING")
+			m.RunRegistry(s, "R-REGISTRY") // includes: custom functions are consulted only after the builtin lookup missed
 			fns, _ := m.builtinClosure()
 			m.newAssertChecker(s).Run("R-ASSERT", fns)
 			m.newBoundsChecker(s).Run("R-BOUNDS", "R-DIVGUARD", fns)
